@@ -378,3 +378,93 @@ Print Assumptions C03_resolved_canonical.
 Example C03_resolved_canonical_nonvacuous :
   rooted (bs "/pub/..//secret/./f.txt"%string) /\ resolved (bs "/pub/..//secret/./f.txt"%string) <> [SLASH].
 Proof. split; [eexists; reflexivity|vm_compute; discriminate]. Qed.
+
+(* ====================================================================================
+   HIDE: internal locations are not disclosed through an ancestor directory
+   ==================================================================================== *)
+
+(* The setups run in the order of plugin.go's directive list (regenerated each run): when browse
+   copies the site's hide list, and when NewServer copies it for the static file server, the paths
+   of `internal` are on it — for every initial hide list, every path list, browse configured or not. *)
+Theorem C03_internal_paths_on_hide_lists : forall s ps,
+  hs_internal s = Some ps ->
+  incl ps (fs_hide s) /\ (forall h, browse_hide s = Some h -> incl ps h).
+Proof. exact internal_paths_on_hide_lists. Qed.
+Print Assumptions C03_internal_paths_on_hide_lists.
+
+Example C03_internal_paths_on_hide_lists_nonvacuous :
+  let s := {| hs_initial := [bs "/Casketfile"%string]; hs_internal := Some [bs "/int"%string]; hs_browse := true |} in
+  hs_internal s = Some [bs "/int"%string] /\
+  browse_hide s = Some [bs "/Casketfile"%string; bs "/int"%string] /\
+  fs_hide s = [bs "/Casketfile"%string; bs "/int"%string].
+Proof. vm_compute. auto. Qed.
+
+(* it is the order that gives it: a browse set up before internal would copy a list without them *)
+Theorem C03_hide_lists_any_order_refuted : exists dirs ps,
+  ss_browse (run_setups dirs {| hs_initial := []; hs_internal := Some ps; hs_browse := true |}) = Some [] /\ ps <> [].
+Proof. exact hide_order_matters. Qed.
+Print Assumptions C03_hide_lists_any_order_refuted.
+
+(* a listing never names a hidden entry, and names every other one *)
+Theorem C03_listing_never_names_hidden : forall hide d kids f,
+  In f (listing hide d kids) -> is_hidden hide f = false.
+Proof. exact listing_not_hidden. Qed.
+Print Assumptions C03_listing_never_names_hidden.
+
+Theorem C03_listing_complete : forall hide d kids k,
+  In k kids -> is_hidden hide (child_path d (node_name k)) = false ->
+  In (child_path d (node_name k)) (listing hide d kids).
+Proof. exact listing_complete. Qed.
+Print Assumptions C03_listing_complete.
+
+(* every member of an archive, for every tree and hide list: neither the member nor any directory
+   between the archived directory and it is hidden *)
+Theorem C03_archive_never_below_hidden : forall hide d kids e c,
+  In (e, c) (archive hide d kids) ->
+  In e c /\ (forall a, In a c -> is_hidden hide a = false).
+Proof. exact archive_not_hidden. Qed.
+Print Assumptions C03_archive_never_below_hidden.
+
+(* hence, for every site, every directory tree, every directory listed or archived: an internal
+   location is not among the listed names, and is neither a member of the archive nor a directory
+   a member lies below *)
+Theorem C03_internal_location_not_listed : forall s ps h d kids p,
+  hs_internal s = Some ps -> browse_hide s = Some h -> In p ps ->
+  ~ In (resolved p) (listing h d kids) /\
+  (forall e c, In (e, c) (archive h d kids) -> ~ In (resolved p) c).
+Proof. exact internal_location_not_listed. Qed.
+Print Assumptions C03_internal_location_not_listed.
+
+Example C03_internal_location_not_listed_nonvacuous :
+  let s := {| hs_initial := []; hs_internal := Some [bs "/int"%string]; hs_browse := true |} in
+  browse_hide s = Some [bs "/int"%string] /\
+  listing [bs "/int"%string] [SLASH] example_tree = [bs "/pub"%string; bs "/top.txt"%string] /\
+  map fst (archive [bs "/int"%string] [SLASH] example_tree) = [bs "/pub"%string; bs "/pub/a.txt"%string; bs "/top.txt"%string] /\
+  (* without the paths on the list everything is named *)
+  map fst (archive [] [SLASH] example_tree) =
+    [bs "/int"%string; bs "/int/h.txt"%string; bs "/pub"%string; bs "/pub/a.txt"%string; bs "/top.txt"%string].
+Proof. vm_compute. auto. Qed.
+
+(* the static file server never sends the bytes of a hidden file — not as the file asked for,
+   not as an index page, not as a precompressed sibling — hence never those of an internal location *)
+Theorem C03_fileserver_never_serves_hidden : forall hide idx exts files dirs p f,
+  fs_serve hide idx exts files dirs p = Some f -> is_hidden hide f = false.
+Proof. exact fs_serve_not_hidden. Qed.
+Print Assumptions C03_fileserver_never_serves_hidden.
+
+Theorem C03_fileserver_never_serves_internal : forall s ps idx exts files dirs p ip,
+  hs_internal s = Some ps -> In ip ps ->
+  fs_serve (fs_hide s) idx exts files dirs p <> Some (resolved ip).
+Proof. exact fs_never_serves_internal. Qed.
+Print Assumptions C03_fileserver_never_serves_internal.
+
+Example C03_fileserver_never_serves_internal_nonvacuous :
+  let files := [bs "/int/index.html"%string; bs "/int/h.txt"%string; bs "/f.txt"%string; bs "/f.txt.gz"%string] in
+  let dirs := [[SLASH]; bs "/int"%string] in
+  (* index page that is an internal location: not served, no fallback *)
+  fs_serve [bs "/int/index.html"%string] [bs "index.html"%string; bs "h.txt"%string] [] files dirs (bs "/int/"%string) = None /\
+  fs_serve [] [bs "index.html"%string] [] files dirs (bs "/int/"%string) = Some (bs "/int/index.html"%string) /\
+  (* hidden sibling: the file itself is sent *)
+  fs_serve [bs "/f.txt.gz"%string] [] [bs ".gz"%string] files dirs (bs "/x/../f.txt"%string) = Some (bs "/f.txt"%string) /\
+  fs_serve [] [] [bs ".gz"%string] files dirs (bs "/f.txt"%string) = Some (bs "/f.txt.gz"%string).
+Proof. vm_compute. auto. Qed.
